@@ -82,9 +82,20 @@ def c_case(case, res):
 
 # ---------------------------------------------------------------- running
 
+def crashed(case, reason):
+    return {'code': 99, 'u': None, 'b': None,
+            'fails': [{'clause': 'crash-or-hang', 'site': case.get('kind'), 'who': 'worker', 'what': 'died',
+                       'detail': 'the implementation worker crashed or hung on this case: %s' % reason}]}
+
+
 def run_impl_cases(cases, chunk=200):
+    from concurrent.futures import ThreadPoolExecutor
     chunks = [cases[i:i + chunk] for i in range(0, len(cases), chunk)]
-    outs = core.run_impl_parallel('c10', [{'cases': ch} for ch in chunks])
+
+    def one(ch):
+        return core.run_cases_bisect('c10', ch, lambda cs: {'cases': cs}, crashed, timeout=150)
+    with ThreadPoolExecutor(max_workers=core.NCPU) as ex:
+        outs = list(ex.map(one, chunks))
     return [r for out in outs for r in out]
 
 
